@@ -117,6 +117,18 @@ Theorem independence : forall cf rq sched p st p' st' log o res st1 es1 res1,
 Proof. exact independence_l. Qed.
 Print Assumptions independence.
 
+(** isolation also for concurrent requests: started in any state reachable by a history [h], under any
+    schedule, once the requests (pairwise distinct container ids) have completed, everything any
+    plugin received is what the static configuration and that container's own pod prescribe *)
+Theorem isolation_concurrent : forall cf rq h st outs ops sched p' st' log,
+  run cur_flags cf rq init h = (st, outs) ->
+  NoDup (map op_cid ops) ->
+  prun cur_flags cf rq sched (pool_of ops) st = (p', st', log) ->
+  (forall o, In o ops -> exists res, p_get p' (op_cid o) = Some (TDone res)) ->
+  forall e, In e log -> payload_okb cf rq e = true.
+Proof. exact isolation_concurrent_l. Qed.
+Print Assumptions isolation_concurrent.
+
 (** the hypotheses are met by concrete non-trivial inputs: a pod selecting two networks; an
     interleaving of two ADDs (one rolled back) that completes *)
 Example resolve_nonvacuous : exists a b,
